@@ -303,7 +303,11 @@ def run(ctx):
         s = ''.join(rng.choice('aB6-31+g*/()_slt ') for _ in range(rng.randint(0, 14)))
         t = _cmp(ctx, 'transform_basis_name', misc.transform_basis_name, [s], kind='name-random')
         _cmp(ctx, 'basis_name_from_filename', misc.basis_name_from_filename, [s], kind='name-random')
-        if t[0] == 'ok' and '_s' not in s.lower():
+        # outside the index the escape scheme is ambiguous by construction when an 'sl' / 'st' touches '*', '/' or '_'
+        # ("*sl*" -> "_st_sl_st_" also reads as "_st" + "/" + "st_"); the property quantifies over the names in the index,
+        # the random stream only demands the round trip where it is well defined
+        import re as _re
+        if t[0] == 'ok' and not _re.search(r'[*/_]s[lt]|s[lt][*/_]', s.lower()):
             back = impl.call(misc.basis_name_from_filename, t[1])
             if back != ('ok', s.lower()):
                 ctx.violation('misc.basis_name_from_filename', 'roundtrip', 'file name -> basis name does not recover the lower-cased name',
